@@ -552,6 +552,11 @@ where
     T: Sample<Type = T> + Copy + std::fmt::Debug + Type,
 {
     fn work(&mut self) -> Result<BlockRet> {
+        if self.repeat.done() || self.range.1 == 0 {
+            // Includes repeat count zero, and an empty recording: emit nothing
+            // at all.
+            return Ok(BlockRet::EOF);
+        }
         if self.left == 0 {
             if self.repeat.again() {
                 self.file.seek(std::io::SeekFrom::Start(self.range.0))?;
